@@ -132,6 +132,44 @@ def main():
         for ln in open(os.path.join(SRC, '4DFR.pdb')):
             if ln.startswith('HETATM') and ln[21] == 'A' and ln[17:20] in ('MTX', ' CL'):
                 fh.write(ln[:80].rstrip() + '\n')
+    # the zinc site of 1FTJ chain A: ZN 1.96 A from GLU 42 OE1 (inside the bonding cut-off) and 2.16 A from HIS 46, with the
+    # neighbouring residues and LYS 45; plus the free glutamate ligand (GLU A 274) if close
+    rz = residues(os.path.join(SRC, '1FTJ-Chain-A.pdb'), 'A')
+    with open(os.path.join(OUT, 'complex_ZN.pdb'), 'w') as fh:
+        for k in seg(rz, (41, 42, 43, 44, 45, 46, 47)):
+            for ln in rz[k]:
+                if not ln[12:16].strip().startswith('H'):
+                    fh.write(ln[:80].rstrip() + '\n')
+        fh.write('TER   \n')
+        for ln in open(os.path.join(SRC, '1FTJ-Chain-A.pdb')):
+            if ln.startswith('HETATM') and ln[17:20].strip() == 'ZN':
+                fh.write(ln[:80].rstrip() + '\n')
+    # two copies of a ligand and two ions of one kind in ONE chain (labels of hetero groups carry no residue number, so the copies
+    # share their labels): complex_MTX plus a translated copy of the methotrexate as MTX A 162 and a second chloride CL A 163,
+    # placed by a deterministic search at least 3.5 A from every other atom and within 9 A of a protein group atom
+    import itertools
+    src = [l for l in open(os.path.join(OUT, 'complex_MTX.pdb')).read().split('\n') if l]
+    atoms = [l for l in src if l[:6] in ('ATOM  ', 'HETATM')]
+    P = lambda l: (float(l[30:38]), float(l[38:46]), float(l[46:54]))
+    lig = [l for l in atoms if l[17:20] == 'MTX']
+    ion = [l for l in atoms if l[17:20].strip() == 'CL']
+    prot = [l for l in atoms if l.startswith('ATOM')]
+    def place(moving, fixed, steps):
+        for v in steps:
+            pts = [tuple(c + d for c, d in zip(P(l), v)) for l in moving]
+            dmin = min(math.dist(p, P(f)) for p in pts for f in fixed)
+            dprot = min(math.dist(p, P(f)) for p in pts for f in prot)
+            if dmin >= 3.5 and dprot <= 6.0:
+                return v
+        raise SystemExit('no placement found')
+    grid = [(-12.0 + 1.5 * i, -12.0 + 1.5 * j, -12.0 + 1.5 * k) for i, j, k in itertools.product(range(17), repeat=3)]
+    grid.sort(key=lambda v: (round(math.dist(v, (0, 0, 0)), 3), v))
+    v1 = place(lig, atoms, grid)
+    lig2 = [l[:22] + ' 162' + l[26:30] + '%8.3f%8.3f%8.3f' % tuple(round(c + d, 3) for c, d in zip(P(l), v1)) + l[54:] for l in lig]
+    v2 = place(ion, atoms + lig2, grid)
+    ion2 = [l[:22] + ' 163' + l[26:30] + '%8.3f%8.3f%8.3f' % tuple(round(c + d, 3) for c, d in zip(P(l), v2)) + l[54:] for l in ion]
+    with open(os.path.join(OUT, 'complex_MTX2.pdb'), 'w') as fh:
+        fh.write('\n'.join(src + lig2 + ion2) + '\n')
     print(sorted(os.listdir(OUT)))
 
 
